@@ -178,6 +178,23 @@ M = [
     ("reg-coal-merge", "pixman/pixman-region.c", None, "prev_box->y2 = y2;", "prev_box->y1 = y2;", 0),
     ("seed-C07-m3", "patch", "seeded/C07-m3/patch.diff", "", "", 0),
     ("seed-C06-m4", "patch", "seeded/C06-m4/patch.diff", "", "", 0),
+    # ---- pixman-region.c: intersect_o / union_o / subtract_o steps
+    ("rego-inter-max", "pixman/pixman-region.c", None, "x1 = MAX (r1->x1, r2->x1);", "x1 = MIN (r1->x1, r2->x1);", 0),
+    ("rego-inter-test", "pixman/pixman-region.c", None, "if (x1 < x2)\n\t    NEWRECT", "if (x1 <= x2)\n\t    NEWRECT", 0),
+    ("rego-inter-adv", "pixman/pixman-region.c", None, "if (r2->x2 == x2)\n        {\n            r2++;", "if (r2->x2 == x2)\n        {\n            r1++;", 0),
+    ("rego-merge-le", "pixman/pixman-region.c", None, "if (r->x1 <= x2)\t\t\t\t\t\t\\", "if (r->x1 < x2)\t\t\t\t\t\t\\", 0),
+    ("rego-merge-grow", "pixman/pixman-region.c", None, "if (x2 < r->x2)\t\t\t\t\t\t\\", "if (x2 <= r->x1)\t\t\t\t\t\t\\", 0),
+    ("rego-union-pick", "pixman/pixman-region.c", None, "    while (r1 != r1_end && r2 != r2_end)\n    {\n        if (r1->x1 < r2->x1)", "    while (r1 != r1_end && r2 != r2_end)\n    {\n        if (r1->x1 <= r2->x1)", 0),
+    ("rego-sub-skip", "pixman/pixman-region.c", None, "if (r2->x2 <= x1)", "if (r2->x2 < x1)", 0),
+    ("rego-sub-cover", "pixman/pixman-region.c", None, "else if (r2->x1 <= x1)", "else if (r2->x1 < x1)", 0),
+    ("rego-sub-mid", "pixman/pixman-region.c", None, "else if (r2->x1 < r1->x2)", "else if (r2->x1 <= r1->x2)", 0),
+    ("rego-sub-tail", "pixman/pixman-region.c", None, "if (r1->x2 > x1)\n\t\tNEWRECT", "if (r1->x2 >= x1)\n\t\tNEWRECT", 0),
+    ("reg-single", "pixman/pixman-region.c", None, "region->extents = *PIXREGION_BOXPTR (region);\n            FREE_DATA (region);\n            region->data = (region_data_type_t *)NULL;", "region->extents = *PIXREGION_END (region);\n            FREE_DATA (region);\n            region->data = (region_data_type_t *)NULL;", 0),
+    ("seed-C05-m2", "patch", "seeded/C05-m2/patch.diff", "", "", 0),
+    ("seed-C05-m5", "patch", "seeded/C05-m5/patch.diff", "", "", 0),
+    ("seed-C05-m6", "patch", "seeded/C05-m6/patch.diff", "", "", 0),
+    ("seed-C06-m3", "patch", "seeded/C06-m3/patch.diff", "", "", 0),
+    ("seed-C07-m1", "patch", "seeded/C07-m1/patch.diff", "", "", 0),
     # ---- fail closed: constructs outside the accepted subset
     ("unsupported-goto", "pixman/pixman-matrix.c", "fixed_112_16_to_fixed_48_16", "*clampflag = TRUE;", "*clampflag = TRUE; goto out;", 0),
     ("unsupported-loop", "pixman/pixman-trap.c", "pixman_edge_step", "e->x += n * e->stepx;", "while (n > 3) n--; e->x += n * e->stepx;", 0),
